@@ -1,6 +1,7 @@
 package harness
 
 import (
+	"bytes"
 	"errors"
 	"fmt"
 	"io"
@@ -361,6 +362,11 @@ func (x *parserExec) doWrite(op POp) {
 func (x *parserExec) doReadFromMulti(op POp) {
 	data := []byte(op.R.Data)
 	rd := multiReader(data, op.R.Multi)
+	if len(op.R.Multi) == 1 && op.R.Multi[0].Kind == "buffer" {
+		// a *bytes.Buffer itself (it has Len() and answers an empty slice at
+		// its end with (0, nil))
+		rd = bytes.NewBuffer(cloneBytes(data))
+	}
 	var n int64
 	var err error
 	before := x.buffered()
